@@ -48,11 +48,14 @@ class LiteBody:
     def __init__(self, ix, applied):
         self.ix, self.applied = ix, applied
         self.p = Vec(*[z3.Real("p%d_%d" % (ix, k)) for k in range(3)])
-        self.vpt = Vec(*[z3.Real("vpt%d_%d" % (ix, k)) for k in range(3)])
+        self.v0 = Vec(*[z3.Real("v0%d_%d" % (ix, k)) for k in range(3)])      # velocity of the body origin
+        self.w = Vec(*[z3.Real("w%d_%d" % (ix, k)) for k in range(3)])        # angular velocity
     def findStationAtGroundPoint(self, state, x): return FL.GroundStation(x - self.p)
     def findStationVelocityInGround(self, state, st):
         assert isinstance(st, FL.GroundStation)
-        return self.vpt
+        return self.v0 + cross(self.w, st.vecG)        # rigid-body velocity field: depends on WHICH station is passed
+    def velocity_at_ground_point(self, x):
+        return self.v0 + cross(self.w, x - self.p)
     def applyForceToBodyPoint(self, state, st, force, bodyForces):
         assert isinstance(st, FL.GroundStation)
         self.applied.append((self.ix, st.vecG + self.p, force))
@@ -95,7 +98,7 @@ def law(ctx, only_reaction=False, U="huntcrossley.law"):
     cc = prm[1].dissipation * s1 + prm[2].dissipation * (1 - s1)
     x, n, Rr = c0.depth, c0.n, c0.rad
     loc = c0.loc + (x * (Q("0.5") - s1)) * n                     # contact point shifted by relative stiffness
-    v = bodies[1].vpt - bodies[2].vpt; vn = dot(v, n); vtg = v - vn * n
+    v = bodies[1].velocity_at_ground_point(loc) - bodies[2].velocity_at_ground_point(loc); vn = dot(v, n); vtg = v - vn * n
     growth = 1 + Q("1.5") * cc * vn
     def comb(a, b):
         return S.ITE(z3.And(val(a) == 0, val(b) == 0), D(0), 2 * a * b / (a + b))
@@ -134,12 +137,21 @@ def law(ctx, only_reaction=False, U="huntcrossley.law"):
             continue
         recips = [d_[2] for d_ in defs if d_[0] == "recip"]
         defs = [d_[2] for d_ in lets_]
-        tvn, tN = D(lets[1]), D(lets[2])
+        tsh, tvn, tN = D(lets[0]), D(lets[1]), D(lets[2])
         # minimal hypothesis sets (opaque / reveal): each goal gets only the definitions it needs
         unitn = [val(n.normSqr()) == 1]
-        vtc = v - tvn * n                                   # the code's vtangent in terms of its own vnormal scalar
-        H_struct = unitn + [defs[1]]                        # n.n == 1, vnormal == v.n
-        H_f = pside + c0.side + envside + path + [defs[2]] + recips  # definition of f, path condition f > 0, sqrt and reciprocal definitions
+        loc_c = c0.loc + tsh * n                            # the code's contact point in terms of its own shift scalar
+        v_c = bodies[1].velocity_at_ground_point(loc_c) - bodies[2].velocity_at_ground_point(loc_c)
+        vtc = v_c - tvn * n                                 # the code's vtangent in terms of its own vnormal scalar
+        growth_c = 1 + Q("1.5") * cc * tvn
+        B.prove_eq("%s: the code's relative velocity is v1-v2 of the two body points at the code's contact point (body1's and body2's OWN points)" % tag,
+                   D(val(tvn)), dot(v_c, n), [defs[1]], U, FN, timeout_ms=T, minimal=True)
+        B.prove_eq("%s: the code's contact point == documented point (location + depth*(1/2 - s1)*normal)" % tag, loc_c, loc, [defs[0]] + recips + pside, U, FN, timeout_ms=T, minimal=True)
+        H_struct = unitn + [val(tvn) == val(dot(v_c, n))]    # n.n == 1, vnormal == v.n (proved just below from its definition)
+        # hypotheses about f: its definition and the path condition f > 0, with the (heavy) penetration-rate term rewritten to the
+        # code's own scalar tvn using the hypothesis defs[1]: tvn == <term> (rewriting one hypothesis with another equality is sound)
+        rw = lambda h_: z3.substitute(h_, (defs[1].arg(1), defs[1].arg(0)))
+        H_f = pside + c0.side + envside + [rw(h_) for h_ in path] + [rw(defs[2])] + recips
         if friction:
             tG = D(lets[3])
             vs = vtc.norm()                                 # same radicand term as the code's vslip -> same root variable
@@ -150,10 +162,10 @@ def law(ctx, only_reaction=False, U="huntcrossley.law"):
         NisF = [val(N) == val(tN)]
         B.prove_bool("%s: normal component N > 0 (never attractive)" % tag, val(N) > 0, H_f + NisF, U, FN, timeout_ms=T, minimal=True)
         B.prove_eq("%s: f^2 == (16/9) R k^3 x^3 (1 + 3/2 c xdot)^2 (Hertz/Hunt-Crossley)" % tag, tN * tN,
-                   (Q("16.0") / Q("9.0")) * Rr * kk * kk * kk * x * x * x * growth * growth, H_f + [defs[1]], U, FN, timeout_ms=T, minimal=True)
+                   (Q("16.0") / Q("9.0")) * Rr * kk * kk * kk * x * x * x * growth_c * growth_c, H_f, U, FN, timeout_ms=T, minimal=True)
         B.prove_eq("%s: friction lies in the tangent plane" % tag, dot(fr, n), 0, unitn, U, FN, timeout_ms=T, minimal=True)
         B.prove_eq("%s: friction is parallel to the code's slip velocity" % tag, cross(fr, vtc), Vec(0, 0, 0), NisF + H_vs, U, FN, timeout_ms=T, minimal=True)
-        B.prove_eq("%s: the code's slip velocity is the tangential part of v1-v2" % tag, vtc, vtg, H_struct, U, FN, timeout_ms=T, minimal=True)
+        B.prove_eq("%s: the code's slip velocity is the tangential part of v1-v2 (at the code's contact point)" % tag, vtc, v_c - dot(v_c, n) * n, H_struct, U, FN, timeout_ms=T, minimal=True)
         if friction:
             us, ud, uv = comb(prm[1].staticFriction, prm[2].staticFriction), comb(prm[1].dynamicFriction, prm[2].dynamicFriction), comb(prm[1].viscousFriction, prm[2].viscousFriction)
             vr = vs / D(vt)
